@@ -13,9 +13,15 @@ Gen/Bytest.vos Gen/Bytest.vok Gen/Bytest.required_vos: Gen/Bytest.v
 Gen/Ctc16.vo Gen/Ctc16.glob Gen/Ctc16.v.beautified Gen/Ctc16.required_vo: Gen/Ctc16.v Lib/Base.vo Model/MimeCt.vo
 Gen/Ctc16.vio: Gen/Ctc16.v Lib/Base.vio Model/MimeCt.vio
 Gen/Ctc16.vos Gen/Ctc16.vok Gen/Ctc16.required_vos: Gen/Ctc16.v Lib/Base.vos Model/MimeCt.vos
+Gen/Failfast.vo Gen/Failfast.glob Gen/Failfast.v.beautified Gen/Failfast.required_vo: Gen/Failfast.v 
+Gen/Failfast.vio: Gen/Failfast.v 
+Gen/Failfast.vos Gen/Failfast.vok Gen/Failfast.required_vos: Gen/Failfast.v 
 Gen/Handlers.vo Gen/Handlers.glob Gen/Handlers.v.beautified Gen/Handlers.required_vo: Gen/Handlers.v 
 Gen/Handlers.vio: Gen/Handlers.v 
 Gen/Handlers.vos Gen/Handlers.vok Gen/Handlers.required_vos: Gen/Handlers.v 
+Gen/Resulttabs.vo Gen/Resulttabs.glob Gen/Resulttabs.v.beautified Gen/Resulttabs.required_vo: Gen/Resulttabs.v 
+Gen/Resulttabs.vio: Gen/Resulttabs.v 
+Gen/Resulttabs.vos Gen/Resulttabs.vok Gen/Resulttabs.required_vos: Gen/Resulttabs.v 
 Gen/Spinnertabs.vo Gen/Spinnertabs.glob Gen/Spinnertabs.v.beautified Gen/Spinnertabs.required_vo: Gen/Spinnertabs.v 
 Gen/Spinnertabs.vio: Gen/Spinnertabs.v 
 Gen/Spinnertabs.vos Gen/Spinnertabs.vok Gen/Spinnertabs.required_vos: Gen/Spinnertabs.v 
@@ -40,12 +46,18 @@ Model/DeferredMatchers.vos Model/DeferredMatchers.vok Model/DeferredMatchers.req
 Model/Matchers.vo Model/Matchers.glob Model/Matchers.v.beautified Model/Matchers.required_vo: Model/Matchers.v Lib/Base.vo Lib/Sort.vo
 Model/Matchers.vio: Model/Matchers.v Lib/Base.vio Lib/Sort.vio
 Model/Matchers.vos Model/Matchers.vok Model/Matchers.required_vos: Model/Matchers.v Lib/Base.vos Lib/Sort.vos
+Model/Mime.vo Model/Mime.glob Model/Mime.v.beautified Model/Mime.required_vo: Model/Mime.v Lib/Base.vo Lib/Sort.vo Lib/Bytestr.vo
+Model/Mime.vio: Model/Mime.v Lib/Base.vio Lib/Sort.vio Lib/Bytestr.vio
+Model/Mime.vos Model/Mime.vok Model/Mime.required_vos: Model/Mime.v Lib/Base.vos Lib/Sort.vos Lib/Bytestr.vos
 Model/MimeCt.vo Model/MimeCt.glob Model/MimeCt.v.beautified Model/MimeCt.required_vo: Model/MimeCt.v Lib/Base.vo Lib/Sort.vo
 Model/MimeCt.vio: Model/MimeCt.v Lib/Base.vio Lib/Sort.vio
 Model/MimeCt.vos Model/MimeCt.vok Model/MimeCt.required_vos: Model/MimeCt.v Lib/Base.vos Lib/Sort.vos
 Model/Reactor.vo Model/Reactor.glob Model/Reactor.v.beautified Model/Reactor.required_vo: Model/Reactor.v Lib/Base.vo
 Model/Reactor.vio: Model/Reactor.v Lib/Base.vio
 Model/Reactor.vos Model/Reactor.vok Model/Reactor.required_vos: Model/Reactor.v Lib/Base.vos
+Model/Result.vo Model/Result.glob Model/Result.v.beautified Model/Result.required_vo: Model/Result.v Lib/Base.vo Gen/Resulttabs.vo
+Model/Result.vio: Model/Result.v Lib/Base.vio Gen/Resulttabs.vio
+Model/Result.vos Model/Result.vok Model/Result.required_vos: Model/Result.v Lib/Base.vos Gen/Resulttabs.vos
 Model/Router.vo Model/Router.glob Model/Router.v.beautified Model/Router.required_vo: Model/Router.v Lib/Base.vo
 Model/Router.vio: Model/Router.v Lib/Base.vio
 Model/Router.vos Model/Router.vok Model/Router.required_vos: Model/Router.v Lib/Base.vos
@@ -55,9 +67,12 @@ Model/Run.vos Model/Run.vok Model/Run.required_vos: Model/Run.v Lib/Base.vos Gen
 Model/Spinner.vo Model/Spinner.glob Model/Spinner.v.beautified Model/Spinner.required_vo: Model/Spinner.v Lib/Base.vo Model/Reactor.vo Gen/Spinnertabs.vo
 Model/Spinner.vio: Model/Spinner.v Lib/Base.vio Model/Reactor.vio Gen/Spinnertabs.vio
 Model/Spinner.vos Model/Spinner.vok Model/Spinner.required_vos: Model/Spinner.v Lib/Base.vos Model/Reactor.vos Gen/Spinnertabs.vos
-Model/StreamDecor.vo Model/StreamDecor.glob Model/StreamDecor.v.beautified Model/StreamDecor.required_vo: Model/StreamDecor.v Lib/Base.vo Model/Router.vo
-Model/StreamDecor.vio: Model/StreamDecor.v Lib/Base.vio Model/Router.vio
-Model/StreamDecor.vos Model/StreamDecor.vok Model/StreamDecor.required_vos: Model/StreamDecor.v Lib/Base.vos Model/Router.vos
+Model/StreamConv.vo Model/StreamConv.glob Model/StreamConv.v.beautified Model/StreamConv.required_vo: Model/StreamConv.v Lib/Base.vo Lib/Bytestr.vo Gen/Streamtabs.vo Model/Mime.vo Model/StreamRec.vo
+Model/StreamConv.vio: Model/StreamConv.v Lib/Base.vio Lib/Bytestr.vio Gen/Streamtabs.vio Model/Mime.vio Model/StreamRec.vio
+Model/StreamConv.vos Model/StreamConv.vok Model/StreamConv.required_vos: Model/StreamConv.v Lib/Base.vos Lib/Bytestr.vos Gen/Streamtabs.vos Model/Mime.vos Model/StreamRec.vos
+Model/StreamDecor.vo Model/StreamDecor.glob Model/StreamDecor.v.beautified Model/StreamDecor.required_vo: Model/StreamDecor.v Lib/Base.vo Model/Router.vo Gen/Failfast.vo
+Model/StreamDecor.vio: Model/StreamDecor.v Lib/Base.vio Model/Router.vio Gen/Failfast.vio
+Model/StreamDecor.vos Model/StreamDecor.vok Model/StreamDecor.required_vos: Model/StreamDecor.v Lib/Base.vos Model/Router.vos Gen/Failfast.vos
 Model/StreamRec.vo Model/StreamRec.glob Model/StreamRec.v.beautified Model/StreamRec.required_vo: Model/StreamRec.v Lib/Base.vo Lib/Bytestr.vo Gen/Streamtabs.vo
 Model/StreamRec.vio: Model/StreamRec.v Lib/Base.vio Lib/Bytestr.vio Gen/Streamtabs.vio
 Model/StreamRec.vos Model/StreamRec.vok Model/StreamRec.required_vos: Model/StreamRec.v Lib/Base.vos Lib/Bytestr.vos Gen/Streamtabs.vos
@@ -82,18 +97,30 @@ Spec/C02.vos Spec/C02.vok Spec/C02.required_vos: Spec/C02.v Lib/Base.vos Gen/Han
 Spec/C03.vo Spec/C03.glob Spec/C03.v.beautified Spec/C03.required_vo: Spec/C03.v Lib/Base.vo Gen/Handlers.vo Model/Run.vo Spec/Run.vo
 Spec/C03.vio: Spec/C03.v Lib/Base.vio Gen/Handlers.vio Model/Run.vio Spec/Run.vio
 Spec/C03.vos Spec/C03.vok Spec/C03.required_vos: Spec/C03.v Lib/Base.vos Gen/Handlers.vos Model/Run.vos Spec/Run.vos
+Spec/C04.vo Spec/C04.glob Spec/C04.v.beautified Spec/C04.required_vo: Spec/C04.v Lib/Base.vo Model/Result.vo
+Spec/C04.vio: Spec/C04.v Lib/Base.vio Model/Result.vio
+Spec/C04.vos Spec/C04.vok Spec/C04.required_vos: Spec/C04.v Lib/Base.vos Model/Result.vos
 Spec/C06.vo Spec/C06.glob Spec/C06.v.beautified Spec/C06.required_vo: Spec/C06.v Lib/Base.vo Lib/Sort.vo Model/Matchers.vo
 Spec/C06.vio: Spec/C06.v Lib/Base.vio Lib/Sort.vio Model/Matchers.vio
 Spec/C06.vos Spec/C06.vok Spec/C06.required_vos: Spec/C06.v Lib/Base.vos Lib/Sort.vos Model/Matchers.vos
 Spec/C08.vo Spec/C08.glob Spec/C08.v.beautified Spec/C08.required_vo: Spec/C08.v Lib/Base.vo Model/Adapters.vo
 Spec/C08.vio: Spec/C08.v Lib/Base.vio Model/Adapters.vio
 Spec/C08.vos Spec/C08.vok Spec/C08.required_vos: Spec/C08.v Lib/Base.vos Model/Adapters.vos
+Spec/C09.vo Spec/C09.glob Spec/C09.v.beautified Spec/C09.required_vo: Spec/C09.v Lib/Base.vo Lib/Sort.vo Lib/Bytestr.vo Model/Mime.vo Model/StreamRec.vo Model/StreamConv.vo
+Spec/C09.vio: Spec/C09.v Lib/Base.vio Lib/Sort.vio Lib/Bytestr.vio Model/Mime.vio Model/StreamRec.vio Model/StreamConv.vio
+Spec/C09.vos Spec/C09.vok Spec/C09.required_vos: Spec/C09.v Lib/Base.vos Lib/Sort.vos Lib/Bytestr.vos Model/Mime.vos Model/StreamRec.vos Model/StreamConv.vos
 Spec/C10.vo Spec/C10.glob Spec/C10.v.beautified Spec/C10.required_vo: Spec/C10.v Lib/Base.vo Lib/Bytestr.vo Model/StreamRec.vo
 Spec/C10.vio: Spec/C10.v Lib/Base.vio Lib/Bytestr.vio Model/StreamRec.vio
 Spec/C10.vos Spec/C10.vok Spec/C10.required_vos: Spec/C10.v Lib/Base.vos Lib/Bytestr.vos Model/StreamRec.vos
+Spec/C11.vo Spec/C11.glob Spec/C11.v.beautified Spec/C11.required_vo: Spec/C11.v Lib/Base.vo Model/Router.vo Model/StreamDecor.vo Gen/Failfast.vo
+Spec/C11.vio: Spec/C11.v Lib/Base.vio Model/Router.vio Model/StreamDecor.vio Gen/Failfast.vio
+Spec/C11.vos Spec/C11.vok Spec/C11.required_vos: Spec/C11.v Lib/Base.vos Model/Router.vos Model/StreamDecor.vos Gen/Failfast.vos
 Spec/C12.vo Spec/C12.glob Spec/C12.v.beautified Spec/C12.required_vo: Spec/C12.v Lib/Base.vo Model/Tfr.vo
 Spec/C12.vio: Spec/C12.v Lib/Base.vio Model/Tfr.vio
 Spec/C12.vos Spec/C12.vok Spec/C12.required_vos: Spec/C12.v Lib/Base.vos Model/Tfr.vos
+Spec/C14.vo Spec/C14.glob Spec/C14.v.beautified Spec/C14.required_vo: Spec/C14.v Lib/Base.vo Model/AsyncRun.vo
+Spec/C14.vio: Spec/C14.v Lib/Base.vio Model/AsyncRun.vio
+Spec/C14.vos Spec/C14.vok Spec/C14.required_vos: Spec/C14.v Lib/Base.vos Model/AsyncRun.vos
 Spec/C15.vo Spec/C15.glob Spec/C15.v.beautified Spec/C15.required_vo: Spec/C15.v Lib/Base.vo Lib/Sort.vo Model/Reactor.vo Model/Spinner.vo
 Spec/C15.vio: Spec/C15.v Lib/Base.vio Lib/Sort.vio Model/Reactor.vio Model/Spinner.vio
 Spec/C15.vos Spec/C15.vok Spec/C15.required_vos: Spec/C15.v Lib/Base.vos Lib/Sort.vos Model/Reactor.vos Model/Spinner.vos
@@ -124,18 +151,30 @@ Corr/C02.vos Corr/C02.vok Corr/C02.required_vos: Corr/C02.v Lib/Base.vos Gen/Han
 Corr/C03.vo Corr/C03.glob Corr/C03.v.beautified Corr/C03.required_vo: Corr/C03.v Lib/Base.vo Gen/Handlers.vo Model/Run.vo Spec/Run.vo Spec/C03.vo
 Corr/C03.vio: Corr/C03.v Lib/Base.vio Gen/Handlers.vio Model/Run.vio Spec/Run.vio Spec/C03.vio
 Corr/C03.vos Corr/C03.vok Corr/C03.required_vos: Corr/C03.v Lib/Base.vos Gen/Handlers.vos Model/Run.vos Spec/Run.vos Spec/C03.vos
+Corr/C04.vo Corr/C04.glob Corr/C04.v.beautified Corr/C04.required_vo: Corr/C04.v Lib/Base.vo Model/Result.vo Spec/C04.vo
+Corr/C04.vio: Corr/C04.v Lib/Base.vio Model/Result.vio Spec/C04.vio
+Corr/C04.vos Corr/C04.vok Corr/C04.required_vos: Corr/C04.v Lib/Base.vos Model/Result.vos Spec/C04.vos
 Corr/C06.vo Corr/C06.glob Corr/C06.v.beautified Corr/C06.required_vo: Corr/C06.v Lib/Base.vo Lib/Sort.vo Model/Matchers.vo Spec/C06.vo
 Corr/C06.vio: Corr/C06.v Lib/Base.vio Lib/Sort.vio Model/Matchers.vio Spec/C06.vio
 Corr/C06.vos Corr/C06.vok Corr/C06.required_vos: Corr/C06.v Lib/Base.vos Lib/Sort.vos Model/Matchers.vos Spec/C06.vos
 Corr/C08.vo Corr/C08.glob Corr/C08.v.beautified Corr/C08.required_vo: Corr/C08.v Lib/Base.vo Model/Adapters.vo Spec/C08.vo
 Corr/C08.vio: Corr/C08.v Lib/Base.vio Model/Adapters.vio Spec/C08.vio
 Corr/C08.vos Corr/C08.vok Corr/C08.required_vos: Corr/C08.v Lib/Base.vos Model/Adapters.vos Spec/C08.vos
+Corr/C09.vo Corr/C09.glob Corr/C09.v.beautified Corr/C09.required_vo: Corr/C09.v Lib/Base.vo Lib/Sort.vo Lib/Bytestr.vo Model/Mime.vo Model/StreamRec.vo Model/StreamConv.vo Spec/C09.vo
+Corr/C09.vio: Corr/C09.v Lib/Base.vio Lib/Sort.vio Lib/Bytestr.vio Model/Mime.vio Model/StreamRec.vio Model/StreamConv.vio Spec/C09.vio
+Corr/C09.vos Corr/C09.vok Corr/C09.required_vos: Corr/C09.v Lib/Base.vos Lib/Sort.vos Lib/Bytestr.vos Model/Mime.vos Model/StreamRec.vos Model/StreamConv.vos Spec/C09.vos
 Corr/C10.vo Corr/C10.glob Corr/C10.v.beautified Corr/C10.required_vo: Corr/C10.v Lib/Base.vo Lib/Bytestr.vo Model/StreamRec.vo Spec/C10.vo
 Corr/C10.vio: Corr/C10.v Lib/Base.vio Lib/Bytestr.vio Model/StreamRec.vio Spec/C10.vio
 Corr/C10.vos Corr/C10.vok Corr/C10.required_vos: Corr/C10.v Lib/Base.vos Lib/Bytestr.vos Model/StreamRec.vos Spec/C10.vos
+Corr/C11.vo Corr/C11.glob Corr/C11.v.beautified Corr/C11.required_vo: Corr/C11.v Lib/Base.vo Model/Router.vo Model/StreamDecor.vo Spec/C11.vo
+Corr/C11.vio: Corr/C11.v Lib/Base.vio Model/Router.vio Model/StreamDecor.vio Spec/C11.vio
+Corr/C11.vos Corr/C11.vok Corr/C11.required_vos: Corr/C11.v Lib/Base.vos Model/Router.vos Model/StreamDecor.vos Spec/C11.vos
 Corr/C12.vo Corr/C12.glob Corr/C12.v.beautified Corr/C12.required_vo: Corr/C12.v Lib/Base.vo Model/Tfr.vo Spec/C12.vo
 Corr/C12.vio: Corr/C12.v Lib/Base.vio Model/Tfr.vio Spec/C12.vio
 Corr/C12.vos Corr/C12.vok Corr/C12.required_vos: Corr/C12.v Lib/Base.vos Model/Tfr.vos Spec/C12.vos
+Corr/C14.vo Corr/C14.glob Corr/C14.v.beautified Corr/C14.required_vo: Corr/C14.v Lib/Base.vo Model/AsyncRun.vo Spec/C14.vo
+Corr/C14.vio: Corr/C14.v Lib/Base.vio Model/AsyncRun.vio Spec/C14.vio
+Corr/C14.vos Corr/C14.vok Corr/C14.required_vos: Corr/C14.v Lib/Base.vos Model/AsyncRun.vos Spec/C14.vos
 Corr/C15.vo Corr/C15.glob Corr/C15.v.beautified Corr/C15.required_vo: Corr/C15.v Lib/Base.vo Lib/Sort.vo Model/Reactor.vo Model/Spinner.vo Gen/Spinnertabs.vo Spec/C15.vo
 Corr/C15.vio: Corr/C15.v Lib/Base.vio Lib/Sort.vio Model/Reactor.vio Model/Spinner.vio Gen/Spinnertabs.vio Spec/C15.vio
 Corr/C15.vos Corr/C15.vok Corr/C15.required_vos: Corr/C15.v Lib/Base.vos Lib/Sort.vos Model/Reactor.vos Model/Spinner.vos Gen/Spinnertabs.vos Spec/C15.vos
@@ -154,36 +193,51 @@ Corr/C19.vos Corr/C19.vok Corr/C19.required_vos: Corr/C19.v Lib/Base.vos Lib/Sor
 Corr/C20.vo Corr/C20.glob Corr/C20.v.beautified Corr/C20.required_vo: Corr/C20.v Lib/Base.vo Model/Deferred.vo Model/DeferredMatchers.vo Spec/C20.vo
 Corr/C20.vio: Corr/C20.v Lib/Base.vio Model/Deferred.vio Model/DeferredMatchers.vio Spec/C20.vio
 Corr/C20.vos Corr/C20.vok Corr/C20.required_vos: Corr/C20.v Lib/Base.vos Model/Deferred.vos Model/DeferredMatchers.vos Spec/C20.vos
-Proof/C01.vo Proof/C01.glob Proof/C01.v.beautified Proof/C01.required_vo: Proof/C01.v Lib/Base.vo Gen/Handlers.vo Model/Run.vo Spec/Run.vo Spec/C01.vo Corr/C01.vo
-Proof/C01.vio: Proof/C01.v Lib/Base.vio Gen/Handlers.vio Model/Run.vio Spec/Run.vio Spec/C01.vio Corr/C01.vio
-Proof/C01.vos Proof/C01.vok Proof/C01.required_vos: Proof/C01.v Lib/Base.vos Gen/Handlers.vos Model/Run.vos Spec/Run.vos Spec/C01.vos Corr/C01.vos
+Proof/C01.vo Proof/C01.glob Proof/C01.v.beautified Proof/C01.required_vo: Proof/C01.v Lib/Base.vo Gen/Handlers.vo Model/Run.vo Spec/Run.vo Spec/C01.vo Corr/C01.vo Proof/RunCore.vo
+Proof/C01.vio: Proof/C01.v Lib/Base.vio Gen/Handlers.vio Model/Run.vio Spec/Run.vio Spec/C01.vio Corr/C01.vio Proof/RunCore.vio
+Proof/C01.vos Proof/C01.vok Proof/C01.required_vos: Proof/C01.v Lib/Base.vos Gen/Handlers.vos Model/Run.vos Spec/Run.vos Spec/C01.vos Corr/C01.vos Proof/RunCore.vos
 Proof/C02.vo Proof/C02.glob Proof/C02.v.beautified Proof/C02.required_vo: Proof/C02.v Lib/Base.vo Gen/Handlers.vo Model/Run.vo Spec/Run.vo Spec/C02.vo Corr/C02.vo
 Proof/C02.vio: Proof/C02.v Lib/Base.vio Gen/Handlers.vio Model/Run.vio Spec/Run.vio Spec/C02.vio Corr/C02.vio
 Proof/C02.vos Proof/C02.vok Proof/C02.required_vos: Proof/C02.v Lib/Base.vos Gen/Handlers.vos Model/Run.vos Spec/Run.vos Spec/C02.vos Corr/C02.vos
-Proof/C03.vo Proof/C03.glob Proof/C03.v.beautified Proof/C03.required_vo: Proof/C03.v Lib/Base.vo Gen/Handlers.vo Model/Run.vo Spec/Run.vo Spec/C03.vo Corr/C03.vo
-Proof/C03.vio: Proof/C03.v Lib/Base.vio Gen/Handlers.vio Model/Run.vio Spec/Run.vio Spec/C03.vio Corr/C03.vio
-Proof/C03.vos Proof/C03.vok Proof/C03.required_vos: Proof/C03.v Lib/Base.vos Gen/Handlers.vos Model/Run.vos Spec/Run.vos Spec/C03.vos Corr/C03.vos
-Proof/C06.vo Proof/C06.glob Proof/C06.v.beautified Proof/C06.required_vo: Proof/C06.v Lib/Base.vo Model/Matchers.vo Spec/C06.vo Corr/C06.vo
-Proof/C06.vio: Proof/C06.v Lib/Base.vio Model/Matchers.vio Spec/C06.vio Corr/C06.vio
-Proof/C06.vos Proof/C06.vok Proof/C06.required_vos: Proof/C06.v Lib/Base.vos Model/Matchers.vos Spec/C06.vos Corr/C06.vos
-Proof/C06Setwise.vo Proof/C06Setwise.glob Proof/C06Setwise.v.beautified Proof/C06Setwise.required_vo: Proof/C06Setwise.v Lib/Base.vo Model/Matchers.vo Spec/C06.vo
-Proof/C06Setwise.vio: Proof/C06Setwise.v Lib/Base.vio Model/Matchers.vio Spec/C06.vio
-Proof/C06Setwise.vos Proof/C06Setwise.vok Proof/C06Setwise.required_vos: Proof/C06Setwise.v Lib/Base.vos Model/Matchers.vos Spec/C06.vos
+Proof/C03.vo Proof/C03.glob Proof/C03.v.beautified Proof/C03.required_vo: Proof/C03.v Lib/Base.vo Gen/Handlers.vo Model/Run.vo Spec/Run.vo Spec/C03.vo Corr/C03.vo Proof/RunCore.vo
+Proof/C03.vio: Proof/C03.v Lib/Base.vio Gen/Handlers.vio Model/Run.vio Spec/Run.vio Spec/C03.vio Corr/C03.vio Proof/RunCore.vio
+Proof/C03.vos Proof/C03.vok Proof/C03.required_vos: Proof/C03.v Lib/Base.vos Gen/Handlers.vos Model/Run.vos Spec/Run.vos Spec/C03.vos Corr/C03.vos Proof/RunCore.vos
+Proof/C04.vo Proof/C04.glob Proof/C04.v.beautified Proof/C04.required_vo: Proof/C04.v Lib/Base.vo Model/Result.vo Spec/C04.vo Corr/C04.vo
+Proof/C04.vio: Proof/C04.v Lib/Base.vio Model/Result.vio Spec/C04.vio Corr/C04.vio
+Proof/C04.vos Proof/C04.vok Proof/C04.required_vos: Proof/C04.v Lib/Base.vos Model/Result.vos Spec/C04.vos Corr/C04.vos
+Proof/C06.vo Proof/C06.glob Proof/C06.v.beautified Proof/C06.required_vo: Proof/C06.v Lib/Base.vo Lib/Sort.vo Model/Matchers.vo Spec/C06.vo Corr/C06.vo Proof/C06Setwise.vo Proof/C06Leaves.vo
+Proof/C06.vio: Proof/C06.v Lib/Base.vio Lib/Sort.vio Model/Matchers.vio Spec/C06.vio Corr/C06.vio Proof/C06Setwise.vio Proof/C06Leaves.vio
+Proof/C06.vos Proof/C06.vok Proof/C06.required_vos: Proof/C06.v Lib/Base.vos Lib/Sort.vos Model/Matchers.vos Spec/C06.vos Corr/C06.vos Proof/C06Setwise.vos Proof/C06Leaves.vos
+Proof/C06Leaves.vo Proof/C06Leaves.glob Proof/C06Leaves.v.beautified Proof/C06Leaves.required_vo: Proof/C06Leaves.v Lib/Base.vo Lib/Sort.vo Model/Matchers.vo Spec/C06.vo
+Proof/C06Leaves.vio: Proof/C06Leaves.v Lib/Base.vio Lib/Sort.vio Model/Matchers.vio Spec/C06.vio
+Proof/C06Leaves.vos Proof/C06Leaves.vok Proof/C06Leaves.required_vos: Proof/C06Leaves.v Lib/Base.vos Lib/Sort.vos Model/Matchers.vos Spec/C06.vos
+Proof/C06Setwise.vo Proof/C06Setwise.glob Proof/C06Setwise.v.beautified Proof/C06Setwise.required_vo: Proof/C06Setwise.v Lib/Base.vo Lib/Sort.vo Model/Matchers.vo Spec/C06.vo
+Proof/C06Setwise.vio: Proof/C06Setwise.v Lib/Base.vio Lib/Sort.vio Model/Matchers.vio Spec/C06.vio
+Proof/C06Setwise.vos Proof/C06Setwise.vok Proof/C06Setwise.required_vos: Proof/C06Setwise.v Lib/Base.vos Lib/Sort.vos Model/Matchers.vos Spec/C06.vos
 Proof/C08.vo Proof/C08.glob Proof/C08.v.beautified Proof/C08.required_vo: Proof/C08.v Lib/Base.vo Lib/Sort.vo Model/Adapters.vo Spec/C08.vo Corr/C08.vo
 Proof/C08.vio: Proof/C08.v Lib/Base.vio Lib/Sort.vio Model/Adapters.vio Spec/C08.vio Corr/C08.vio
 Proof/C08.vos Proof/C08.vok Proof/C08.required_vos: Proof/C08.v Lib/Base.vos Lib/Sort.vos Model/Adapters.vos Spec/C08.vos Corr/C08.vos
+Proof/C09.vo Proof/C09.glob Proof/C09.v.beautified Proof/C09.required_vo: Proof/C09.v Lib/Base.vo Lib/Sort.vo Lib/Bytestr.vo Gen/Streamtabs.vo Model/Mime.vo Model/StreamRec.vo Model/StreamConv.vo Spec/C10.vo Proof/C10.vo Spec/C09.vo Corr/C09.vo
+Proof/C09.vio: Proof/C09.v Lib/Base.vio Lib/Sort.vio Lib/Bytestr.vio Gen/Streamtabs.vio Model/Mime.vio Model/StreamRec.vio Model/StreamConv.vio Spec/C10.vio Proof/C10.vio Spec/C09.vio Corr/C09.vio
+Proof/C09.vos Proof/C09.vok Proof/C09.required_vos: Proof/C09.v Lib/Base.vos Lib/Sort.vos Lib/Bytestr.vos Gen/Streamtabs.vos Model/Mime.vos Model/StreamRec.vos Model/StreamConv.vos Spec/C10.vos Proof/C10.vos Spec/C09.vos Corr/C09.vos
 Proof/C10.vo Proof/C10.glob Proof/C10.v.beautified Proof/C10.required_vo: Proof/C10.v Lib/Base.vo Lib/Bytestr.vo Gen/Streamtabs.vo Model/StreamRec.vo Spec/C10.vo Corr/C10.vo
 Proof/C10.vio: Proof/C10.v Lib/Base.vio Lib/Bytestr.vio Gen/Streamtabs.vio Model/StreamRec.vio Spec/C10.vio Corr/C10.vio
 Proof/C10.vos Proof/C10.vok Proof/C10.required_vos: Proof/C10.v Lib/Base.vos Lib/Bytestr.vos Gen/Streamtabs.vos Model/StreamRec.vos Spec/C10.vos Corr/C10.vos
+Proof/C11.vo Proof/C11.glob Proof/C11.v.beautified Proof/C11.required_vo: Proof/C11.v Lib/Base.vo Model/Router.vo Model/StreamDecor.vo Gen/Failfast.vo Spec/C11.vo Corr/C11.vo
+Proof/C11.vio: Proof/C11.v Lib/Base.vio Model/Router.vio Model/StreamDecor.vio Gen/Failfast.vio Spec/C11.vio Corr/C11.vio
+Proof/C11.vos Proof/C11.vok Proof/C11.required_vos: Proof/C11.v Lib/Base.vos Model/Router.vos Model/StreamDecor.vos Gen/Failfast.vos Spec/C11.vos Corr/C11.vos
 Proof/C12.vo Proof/C12.glob Proof/C12.v.beautified Proof/C12.required_vo: Proof/C12.v Lib/Base.vo Model/Tfr.vo Spec/C12.vo Corr/C12.vo
 Proof/C12.vio: Proof/C12.v Lib/Base.vio Model/Tfr.vio Spec/C12.vio Corr/C12.vio
 Proof/C12.vos Proof/C12.vok Proof/C12.required_vos: Proof/C12.v Lib/Base.vos Model/Tfr.vos Spec/C12.vos Corr/C12.vos
+Proof/C14.vo Proof/C14.glob Proof/C14.v.beautified Proof/C14.required_vo: Proof/C14.v Lib/Base.vo Model/AsyncRun.vo Spec/C14.vo Corr/C14.vo
+Proof/C14.vio: Proof/C14.v Lib/Base.vio Model/AsyncRun.vio Spec/C14.vio Corr/C14.vio
+Proof/C14.vos Proof/C14.vok Proof/C14.required_vos: Proof/C14.v Lib/Base.vos Model/AsyncRun.vos Spec/C14.vos Corr/C14.vos
 Proof/C15.vo Proof/C15.glob Proof/C15.v.beautified Proof/C15.required_vo: Proof/C15.v Lib/Base.vo Lib/Sort.vo Model/Reactor.vo Model/Spinner.vo Gen/Spinnertabs.vo Spec/C15.vo Corr/C15.vo
 Proof/C15.vio: Proof/C15.v Lib/Base.vio Lib/Sort.vio Model/Reactor.vio Model/Spinner.vio Gen/Spinnertabs.vio Spec/C15.vio Corr/C15.vio
 Proof/C15.vos Proof/C15.vok Proof/C15.required_vos: Proof/C15.v Lib/Base.vos Lib/Sort.vos Model/Reactor.vos Model/Spinner.vos Gen/Spinnertabs.vos Spec/C15.vos Corr/C15.vos
-Proof/C16.vo Proof/C16.glob Proof/C16.v.beautified Proof/C16.required_vo: Proof/C16.v Lib/Base.vo Model/Utf8.vo Model/MimeCt.vo Model/Content.vo Spec/C16.vo Corr/C16.vo
-Proof/C16.vio: Proof/C16.v Lib/Base.vio Model/Utf8.vio Model/MimeCt.vio Model/Content.vio Spec/C16.vio Corr/C16.vio
-Proof/C16.vos Proof/C16.vok Proof/C16.required_vos: Proof/C16.v Lib/Base.vos Model/Utf8.vos Model/MimeCt.vos Model/Content.vos Spec/C16.vos Corr/C16.vos
+Proof/C16.vo Proof/C16.glob Proof/C16.v.beautified Proof/C16.required_vo: Proof/C16.v Lib/Base.vo Lib/Sort.vo Model/Utf8.vo Model/MimeCt.vo Model/Content.vo Spec/C16.vo Corr/C16.vo Proof/Utf8Sweep.vo
+Proof/C16.vio: Proof/C16.v Lib/Base.vio Lib/Sort.vio Model/Utf8.vio Model/MimeCt.vio Model/Content.vio Spec/C16.vio Corr/C16.vio Proof/Utf8Sweep.vio
+Proof/C16.vos Proof/C16.vok Proof/C16.required_vos: Proof/C16.v Lib/Base.vos Lib/Sort.vos Model/Utf8.vos Model/MimeCt.vos Model/Content.vos Spec/C16.vos Corr/C16.vos Proof/Utf8Sweep.vos
 Proof/C17.vo Proof/C17.glob Proof/C17.v.beautified Proof/C17.required_vo: Proof/C17.v Lib/Base.vo Model/Tags.vo Spec/C17.vo Corr/C17.vo
 Proof/C17.vio: Proof/C17.v Lib/Base.vio Model/Tags.vio Spec/C17.vio Corr/C17.vio
 Proof/C17.vos Proof/C17.vok Proof/C17.required_vos: Proof/C17.v Lib/Base.vos Model/Tags.vos Spec/C17.vos Corr/C17.vos
@@ -202,33 +256,45 @@ Proof/RunCore.vos Proof/RunCore.vok Proof/RunCore.required_vos: Proof/RunCore.v 
 Proof/Utf8Sweep.vo Proof/Utf8Sweep.glob Proof/Utf8Sweep.v.beautified Proof/Utf8Sweep.required_vo: Proof/Utf8Sweep.v Lib/Base.vo Model/Utf8.vo
 Proof/Utf8Sweep.vio: Proof/Utf8Sweep.v Lib/Base.vio Model/Utf8.vio
 Proof/Utf8Sweep.vos Proof/Utf8Sweep.vok Proof/Utf8Sweep.required_vos: Proof/Utf8Sweep.v Lib/Base.vos Model/Utf8.vos
-Props/C01.vo Props/C01.glob Props/C01.v.beautified Props/C01.required_vo: Props/C01.v Lib/Base.vo Gen/Handlers.vo Model/Run.vo Spec/Run.vo Spec/C01.vo Corr/C01.vo Proof/C01.vo
-Props/C01.vio: Props/C01.v Lib/Base.vio Gen/Handlers.vio Model/Run.vio Spec/Run.vio Spec/C01.vio Corr/C01.vio Proof/C01.vio
-Props/C01.vos Props/C01.vok Props/C01.required_vos: Props/C01.v Lib/Base.vos Gen/Handlers.vos Model/Run.vos Spec/Run.vos Spec/C01.vos Corr/C01.vos Proof/C01.vos
+Props/C01.vo Props/C01.glob Props/C01.v.beautified Props/C01.required_vo: Props/C01.v Lib/Base.vo Gen/Handlers.vo Model/Run.vo Spec/Run.vo Spec/C01.vo Corr/C01.vo Proof/RunCore.vo Proof/C01.vo
+Props/C01.vio: Props/C01.v Lib/Base.vio Gen/Handlers.vio Model/Run.vio Spec/Run.vio Spec/C01.vio Corr/C01.vio Proof/RunCore.vio Proof/C01.vio
+Props/C01.vos Props/C01.vok Props/C01.required_vos: Props/C01.v Lib/Base.vos Gen/Handlers.vos Model/Run.vos Spec/Run.vos Spec/C01.vos Corr/C01.vos Proof/RunCore.vos Proof/C01.vos
 Props/C02.vo Props/C02.glob Props/C02.v.beautified Props/C02.required_vo: Props/C02.v Lib/Base.vo Gen/Handlers.vo Model/Run.vo Spec/Run.vo Spec/C02.vo Corr/C02.vo Proof/C02.vo
 Props/C02.vio: Props/C02.v Lib/Base.vio Gen/Handlers.vio Model/Run.vio Spec/Run.vio Spec/C02.vio Corr/C02.vio Proof/C02.vio
 Props/C02.vos Props/C02.vok Props/C02.required_vos: Props/C02.v Lib/Base.vos Gen/Handlers.vos Model/Run.vos Spec/Run.vos Spec/C02.vos Corr/C02.vos Proof/C02.vos
 Props/C03.vo Props/C03.glob Props/C03.v.beautified Props/C03.required_vo: Props/C03.v Lib/Base.vo Gen/Handlers.vo Model/Run.vo Spec/Run.vo Spec/C03.vo Corr/C03.vo Proof/C03.vo
 Props/C03.vio: Props/C03.v Lib/Base.vio Gen/Handlers.vio Model/Run.vio Spec/Run.vio Spec/C03.vio Corr/C03.vio Proof/C03.vio
 Props/C03.vos Props/C03.vok Props/C03.required_vos: Props/C03.v Lib/Base.vos Gen/Handlers.vos Model/Run.vos Spec/Run.vos Spec/C03.vos Corr/C03.vos Proof/C03.vos
-Props/C06.vo Props/C06.glob Props/C06.v.beautified Props/C06.required_vo: Props/C06.v Lib/Base.vo Model/Matchers.vo Spec/C06.vo Corr/C06.vo
-Props/C06.vio: Props/C06.v Lib/Base.vio Model/Matchers.vio Spec/C06.vio Corr/C06.vio
-Props/C06.vos Props/C06.vok Props/C06.required_vos: Props/C06.v Lib/Base.vos Model/Matchers.vos Spec/C06.vos Corr/C06.vos
+Props/C04.vo Props/C04.glob Props/C04.v.beautified Props/C04.required_vo: Props/C04.v Lib/Base.vo Model/Result.vo Spec/C04.vo Corr/C04.vo Proof/C04.vo
+Props/C04.vio: Props/C04.v Lib/Base.vio Model/Result.vio Spec/C04.vio Corr/C04.vio Proof/C04.vio
+Props/C04.vos Props/C04.vok Props/C04.required_vos: Props/C04.v Lib/Base.vos Model/Result.vos Spec/C04.vos Corr/C04.vos Proof/C04.vos
+Props/C06.vo Props/C06.glob Props/C06.v.beautified Props/C06.required_vo: Props/C06.v Lib/Base.vo Model/Matchers.vo Spec/C06.vo Corr/C06.vo Proof/C06Setwise.vo Proof/C06Leaves.vo Proof/C06.vo
+Props/C06.vio: Props/C06.v Lib/Base.vio Model/Matchers.vio Spec/C06.vio Corr/C06.vio Proof/C06Setwise.vio Proof/C06Leaves.vio Proof/C06.vio
+Props/C06.vos Props/C06.vok Props/C06.required_vos: Props/C06.v Lib/Base.vos Model/Matchers.vos Spec/C06.vos Corr/C06.vos Proof/C06Setwise.vos Proof/C06Leaves.vos Proof/C06.vos
 Props/C08.vo Props/C08.glob Props/C08.v.beautified Props/C08.required_vo: Props/C08.v Lib/Base.vo Model/Adapters.vo Spec/C08.vo Corr/C08.vo Proof/C08.vo
 Props/C08.vio: Props/C08.v Lib/Base.vio Model/Adapters.vio Spec/C08.vio Corr/C08.vio Proof/C08.vio
 Props/C08.vos Props/C08.vok Props/C08.required_vos: Props/C08.v Lib/Base.vos Model/Adapters.vos Spec/C08.vos Corr/C08.vos Proof/C08.vos
+Props/C09.vo Props/C09.glob Props/C09.v.beautified Props/C09.required_vo: Props/C09.v Lib/Base.vo Lib/Bytestr.vo Model/Mime.vo Model/StreamRec.vo Model/StreamConv.vo Spec/C09.vo Corr/C09.vo Proof/C09.vo
+Props/C09.vio: Props/C09.v Lib/Base.vio Lib/Bytestr.vio Model/Mime.vio Model/StreamRec.vio Model/StreamConv.vio Spec/C09.vio Corr/C09.vio Proof/C09.vio
+Props/C09.vos Props/C09.vok Props/C09.required_vos: Props/C09.v Lib/Base.vos Lib/Bytestr.vos Model/Mime.vos Model/StreamRec.vos Model/StreamConv.vos Spec/C09.vos Corr/C09.vos Proof/C09.vos
 Props/C10.vo Props/C10.glob Props/C10.v.beautified Props/C10.required_vo: Props/C10.v Lib/Base.vo Lib/Bytestr.vo Gen/Streamtabs.vo Model/StreamRec.vo Spec/C10.vo Corr/C10.vo Proof/C10.vo
 Props/C10.vio: Props/C10.v Lib/Base.vio Lib/Bytestr.vio Gen/Streamtabs.vio Model/StreamRec.vio Spec/C10.vio Corr/C10.vio Proof/C10.vio
 Props/C10.vos Props/C10.vok Props/C10.required_vos: Props/C10.v Lib/Base.vos Lib/Bytestr.vos Gen/Streamtabs.vos Model/StreamRec.vos Spec/C10.vos Corr/C10.vos Proof/C10.vos
+Props/C11.vo Props/C11.glob Props/C11.v.beautified Props/C11.required_vo: Props/C11.v Lib/Base.vo Model/Router.vo Model/StreamDecor.vo Gen/Failfast.vo Spec/C11.vo Corr/C11.vo Proof/C11.vo
+Props/C11.vio: Props/C11.v Lib/Base.vio Model/Router.vio Model/StreamDecor.vio Gen/Failfast.vio Spec/C11.vio Corr/C11.vio Proof/C11.vio
+Props/C11.vos Props/C11.vok Props/C11.required_vos: Props/C11.v Lib/Base.vos Model/Router.vos Model/StreamDecor.vos Gen/Failfast.vos Spec/C11.vos Corr/C11.vos Proof/C11.vos
 Props/C12.vo Props/C12.glob Props/C12.v.beautified Props/C12.required_vo: Props/C12.v Lib/Base.vo Model/Tfr.vo Spec/C12.vo Corr/C12.vo Proof/C12.vo
 Props/C12.vio: Props/C12.v Lib/Base.vio Model/Tfr.vio Spec/C12.vio Corr/C12.vio Proof/C12.vio
 Props/C12.vos Props/C12.vok Props/C12.required_vos: Props/C12.v Lib/Base.vos Model/Tfr.vos Spec/C12.vos Corr/C12.vos Proof/C12.vos
+Props/C14.vo Props/C14.glob Props/C14.v.beautified Props/C14.required_vo: Props/C14.v Lib/Base.vo Model/AsyncRun.vo Spec/C14.vo Corr/C14.vo Proof/C14.vo
+Props/C14.vio: Props/C14.v Lib/Base.vio Model/AsyncRun.vio Spec/C14.vio Corr/C14.vio Proof/C14.vio
+Props/C14.vos Props/C14.vok Props/C14.required_vos: Props/C14.v Lib/Base.vos Model/AsyncRun.vos Spec/C14.vos Corr/C14.vos Proof/C14.vos
 Props/C15.vo Props/C15.glob Props/C15.v.beautified Props/C15.required_vo: Props/C15.v Lib/Base.vo Lib/Sort.vo Model/Reactor.vo Model/Spinner.vo Gen/Spinnertabs.vo Spec/C15.vo Corr/C15.vo Proof/C15.vo
 Props/C15.vio: Props/C15.v Lib/Base.vio Lib/Sort.vio Model/Reactor.vio Model/Spinner.vio Gen/Spinnertabs.vio Spec/C15.vio Corr/C15.vio Proof/C15.vio
 Props/C15.vos Props/C15.vok Props/C15.required_vos: Props/C15.v Lib/Base.vos Lib/Sort.vos Model/Reactor.vos Model/Spinner.vos Gen/Spinnertabs.vos Spec/C15.vos Corr/C15.vos Proof/C15.vos
-Props/C16.vo Props/C16.glob Props/C16.v.beautified Props/C16.required_vo: Props/C16.v Lib/Base.vo Model/Utf8.vo Model/MimeCt.vo Model/Content.vo Spec/C16.vo Corr/C16.vo Proof/C16.vo
-Props/C16.vio: Props/C16.v Lib/Base.vio Model/Utf8.vio Model/MimeCt.vio Model/Content.vio Spec/C16.vio Corr/C16.vio Proof/C16.vio
-Props/C16.vos Props/C16.vok Props/C16.required_vos: Props/C16.v Lib/Base.vos Model/Utf8.vos Model/MimeCt.vos Model/Content.vos Spec/C16.vos Corr/C16.vos Proof/C16.vos
+Props/C16.vo Props/C16.glob Props/C16.v.beautified Props/C16.required_vo: Props/C16.v Lib/Base.vo Lib/Sort.vo Model/Utf8.vo Model/MimeCt.vo Model/Content.vo Spec/C16.vo Corr/C16.vo Proof/Utf8Sweep.vo Proof/C16.vo
+Props/C16.vio: Props/C16.v Lib/Base.vio Lib/Sort.vio Model/Utf8.vio Model/MimeCt.vio Model/Content.vio Spec/C16.vio Corr/C16.vio Proof/Utf8Sweep.vio Proof/C16.vio
+Props/C16.vos Props/C16.vok Props/C16.required_vos: Props/C16.v Lib/Base.vos Lib/Sort.vos Model/Utf8.vos Model/MimeCt.vos Model/Content.vos Spec/C16.vos Corr/C16.vos Proof/Utf8Sweep.vos Proof/C16.vos
 Props/C17.vo Props/C17.glob Props/C17.v.beautified Props/C17.required_vo: Props/C17.v Lib/Base.vo Model/Tags.vo Spec/C17.vo Corr/C17.vo Proof/C17.vo
 Props/C17.vio: Props/C17.v Lib/Base.vio Model/Tags.vio Spec/C17.vio Corr/C17.vio Proof/C17.vio
 Props/C17.vos Props/C17.vok Props/C17.required_vos: Props/C17.v Lib/Base.vos Model/Tags.vos Spec/C17.vos Corr/C17.vos Proof/C17.vos
